@@ -5,13 +5,17 @@ from oracle_util import *  # noqa
 from protocol import from_real, KEYS
 
 ID = "C10"
-LEAN_MODULE = None
+LEAN_MODULE = ["SCoda.Props.C10", "SCoda.Props.C11b"]
+LEVEL = "proof"
 CLAUSES = [
-    ("an accepted bar lasts exactly numerator*4/denominator quarter notes", None),
-    ("an accepted bar starts with exactly one time-signature event equal to the bar's signature and contains no other", None),
-    ("a sequence longer than the capacity is rejected", None),
-    ("a conflicting or second (different) signature is rejected", None),
-    ("copying a bar yields an equal bar", None),
+    ("an accepted bar lasts exactly numerator*4/denominator quarter notes (its capacity in ticks, the int-typed value of the Python expression)",
+     ["SCoda.C10.bar_duration", "SCoda.C11.barCapacityPy_eq"]),
+    ("an accepted bar starts with exactly one time-signature event equal to the bar's signature and contains no other; otherwise it holds the normalised events of the sequence",
+     ["SCoda.C10.bar_leading_sig", "SCoda.C10.bar_events"]),
+    ("a sequence longer than the capacity is rejected", ["SCoda.C10.bar_too_long"]),
+    ("a conflicting or second (different) signature is rejected; the only failure is a bar error; nothing valid is rejected",
+     ["SCoda.C10.bar_conflict", "SCoda.C10.bar_two_sigs", "SCoda.C10.bar_error_kind", "SCoda.C10.bar_accepts"]),
+    ("copying a bar yields an equal bar", ["SCoda.C10.bar_copy"]),
 ]
 RULE = ("relative sequences shorter than / equal to / longer than the capacity, with zero, one matching, one conflicting "
         "or two signature events, x 12 signatures x keys; non-trivial = sequence has notes or a signature event")
